@@ -404,16 +404,13 @@ impl<'ast, 'psess, 'c> ModResolver<'ast, 'psess> {
                 ..
             }) => {
                 let outside_mods_empty = mods_outside_ast.is_empty();
-                let should_insert = !mods_outside_ast
-                    .iter()
-                    .any(|(outside_path, _, _)| outside_path == &file_path);
+                // N.B. `sub_mod` is the declaration in the parent file. It must never be
+                // registered as the contents of `file_path`: the parent's text would be
+                // written to that file.
                 if self.psess.is_file_parsed(&file_path) {
                     if outside_mods_empty {
                         return Ok(None);
                     } else {
-                        if should_insert {
-                            mods_outside_ast.push((file_path, dir_ownership, sub_mod.clone()));
-                        }
                         return Ok(Some(SubModKind::MultiExternal(mods_outside_ast)));
                     }
                 }
@@ -433,7 +430,7 @@ impl<'ast, 'psess, 'c> ModResolver<'ast, 'psess> {
                     }
                     Ok((attrs, items, span)) => {
                         mods_outside_ast.push((
-                            file_path.clone(),
+                            file_path,
                             dir_ownership,
                             Module::new(
                                 span,
@@ -442,9 +439,6 @@ impl<'ast, 'psess, 'c> ModResolver<'ast, 'psess> {
                                 Cow::Owned(attrs),
                             ),
                         ));
-                        if should_insert {
-                            mods_outside_ast.push((file_path, dir_ownership, sub_mod.clone()));
-                        }
                         Ok(Some(SubModKind::MultiExternal(mods_outside_ast)))
                     }
                     Err(ParserError::ParseError) => Err(ModuleResolutionError {
@@ -455,12 +449,7 @@ impl<'ast, 'psess, 'c> ModResolver<'ast, 'psess> {
                         module: mod_name.to_string(),
                         kind: ModuleResolutionErrorKind::NotFound { file: file_path },
                     }),
-                    Err(..) => {
-                        if should_insert {
-                            mods_outside_ast.push((file_path, dir_ownership, sub_mod.clone()));
-                        }
-                        Ok(Some(SubModKind::MultiExternal(mods_outside_ast)))
-                    }
+                    Err(..) => Ok(Some(SubModKind::MultiExternal(mods_outside_ast))),
                 }
             }
             Err(mod_err) if !mods_outside_ast.is_empty() => {
@@ -545,12 +534,10 @@ impl<'ast, 'psess, 'c> ModResolver<'ast, 'psess> {
                 continue;
             }
             if self.psess.is_file_parsed(&actual_path) {
-                // If the specified file is already parsed, then we just use that.
-                result.push((
-                    actual_path,
-                    DirectoryOwnership::Owned { relative: None },
-                    sub_mod.clone(),
-                ));
+                // The file has been visited through another declaration, which either
+                // registered its contents or left it alone on purpose (`#![rustfmt::skip]`).
+                // `sub_mod` is the declaration in the *parent* file: registering it under
+                // this path would have the parent's text written to the file.
                 continue;
             }
             let (attrs, items, span) =
